@@ -691,6 +691,31 @@ func c07Cycles() *core.Space {
 		{"a": "${l}", "l": L{M{"a": "${l}"}}},
 		{"a": M{"b": "${o}"}, "o": M{"a": "${a}"}},
 	}
+	// a chain of references that runs into a cycle further down (the setting read is not part of it):
+	// tail of 1..3 links, cycle of 1..3 settings, plain links and links inside a text
+	for tail := 1; tail <= 3; tail++ {
+		for cyc := 1; cyc <= 3; cyc++ {
+			for _, form := range []string{"${%s}", "x${%s}"} {
+				m := M{}
+				names := []string{"a", "t1", "t2"}[:tail]
+				for c := 0; c < cyc; c++ {
+					names = append(names, fmt.Sprintf("c%d", c))
+				}
+				for n := 0; n < len(names); n++ {
+					next := n + 1
+					if next == len(names) {
+						next = tail
+					}
+					f := "${%s}"
+					if n == tail-1 {
+						f = form
+					}
+					m[names[n]] = fmt.Sprintf(f, names[next])
+				}
+				cfgs = append(cfgs, m)
+			}
+		}
+	}
 	type two struct{ A, B []string }
 	targets := []func() interface{}{
 		func() interface{} { return &struct{ A string }{} },
